@@ -34,7 +34,7 @@ BOUNDS = {
     "set-ups": "pipelines: none / mapping+state+failure+state-gated condition / strict field mapping; backends: shipped test backend, verification backend in NOT-as-not-equals mode",
     "outside": "more than 3 rules; correlation rules (C09/C10); deferred query parts",
 }
-ASSUMPTIONS = ["'converting that rule alone' = Backend.convert(SigmaCollection([rule])) with a new backend, a new pipeline from the same YAML and a new rule object from the same document"]
+ASSUMPTIONS = ["process-wide caches (condition parse cache, modifier type-hint cache) are cleared before each stand-alone conversion and once before the collection is converted", "'converting that rule alone' = Backend.convert(SigmaCollection([rule])) with a new backend, a new pipeline from the same YAML and a new rule object from the same document"]
 
 PIPES = [
     None,
@@ -144,10 +144,19 @@ def err_sig(e):
     return (type(e).__name__, str(e))
 
 
+def clear_caches():
+    from sigma.conditions import _parse_condition_string
+    from sigma.modifiers import SigmaModifier
+
+    _parse_condition_string.cache_clear()
+    SigmaModifier._type_hint_cache.clear()
+
+
 def check(kinds, collect: bool, bk: int, pipe: int) -> bool:
-    # every rule alone, fresh objects
+    # every rule alone, fresh objects (incl. process-wide caches)
     alone = []
     for i, k in enumerate(kinds):
+        clear_caches()
         b = new_backend(bk, pipe, True)
         try:
             q = b.convert(SigmaCollection([make_rule(k, i)]))
@@ -157,6 +166,7 @@ def check(kinds, collect: bool, bk: int, pipe: int) -> bool:
             return False
         alone.append((list(q), err_sig(b.errors[0][1]) if b.errors else None))
     # the collection, one backend
+    clear_caches()
     rules = [make_rule(k, i) for i, k in enumerate(kinds)]
     b = new_backend(bk, pipe, collect)
     first_fail = next((i for i, a in enumerate(alone) if a[1] is not None), None)
